@@ -106,3 +106,9 @@ C("C04",
   "Trusted: the trace specification written from the protocol description; the coin model (C19). Proof-of-work search calls are counted only. Single-threaded build.",
   "recorded event log + offline trace-specification checker + model replay",
   "DESIGN.md §5 C04")
+
+C("C03",
+  "Seed proofs of small C01-family configurations (12 field x hasher combinations, three extension degrees, 0..max FRI layers, single/multi segment, Lagrange kernel, >= 40 bits of query-position entropy) are mutated: every single-bit flip of the serialized proof, every scalar/length field and every length-prefixed component located by a wire-layout parser (boundary values; grown/shrunk by a byte or a digest with all enclosing lengths fixed up; emptied), FRI layers removed/duplicated/swapped, query records swapped, an extra or missing digest inside each Merkle node vector, truncation at every offset, trailing garbage, semantic edits through the public fields (nonce, unique-query count, gkr_proof, query sets), and the position-aware substitution remainder + c*prod(x - x_q) over the final query points read from the verifier's coin. A mutant must fail to parse, decode to the same content (or differ only by digest re-encoding / partition count: outside the claim), or be rejected. ~3e5 mutants per quick run.",
+  "Trusted: Proof's PartialEq for 'same decoded content'; hash bindings (accidental acceptance needs a collision). Panics are counted and attributed to C06.",
+  "mutation-based negative oracle over accepted proofs (raw, structured, semantic, position-aware)",
+  "DESIGN.md §5 C03")
